@@ -611,6 +611,76 @@ def c17(tier):
     return jobs, meta
 
 
+# ---- C18 -------------------------------------------------------------------------------
+@prop("C18")
+def c18(tier):
+    jobs = []
+    kmax = 8 if tier == "quick" else 16
+    for (cfg, label) in (("default", "getrandom"), ("getentropy", "getentropy"), ("syscall", "raw-syscall")):
+        jobs.append(Job("trng-%s-k%d" % (label, kmax), "c18_trng.c", {"KMAX": kmax}, LIBC, [], backend="sat", unwind=32 * kmax + 40,
+                        timeout=900, config=cfg, facet="fault script, %s variant" % label))
+    jobs.append(Job("trng-dev-urandom-k%d" % kmax, "c18_trng.c", {"KMAX": kmax, "VARIANT_DEV": None}, LIBC, [], backend="sat",
+                    unwind=32 * kmax + 40, timeout=900, config="syscall", facet="fault script, /dev/urandom variant (open/read/close)"))
+    for (cfg, label) in (("default", "getrandom"), ("syscall", "raw-syscall")):
+        d = {"KMAX": 4 if tier == "quick" else 8, "CHAIN": None, "VERIF_CUT2": None}
+        jobs.append(Job("chain-prng-init-%s" % label, "c18_trng.c", d, CUT2_CBMC, CUT2_NATIVE, backend="sat",
+                        unwind=32 * d["KMAX"] + 40, timeout=900, config=cfg, facet="tinyjambu_prng_init over the fault script"))
+    meta = {
+        "functions": ["tinyjambu_trng_generate", "tinyjambu_dev_random_read (static)", "tinyjambu_dev_random_open (static)",
+                      "tinyjambu_prng_init / tinyjambu_prng_system (chain queries)"],
+        "units": ["src/random/tinyjambu-trng-dev-random.c (#included after renaming the OS entry points)", "src/tinyjambu-prng.c (chain)"],
+        "bounds": "symbolic fault script of length K = 8 (thorough 16) over {success, EINTR, EAGAIN, permanent error with any other errno "
+                  "in 1..4095, (device variant) short read}, assumed to contain a terminal event; four build variants: HAVE_GETRANDOM, "
+                  "HAVE_GETENTROPY only, raw SYS_getrandom syscall, /dev/urandom with open/read/close (open may fail); number of OS calls == "
+                  "index of the first terminal event + 1 (retries, no give-up, no extra call), success => the 32 OS bytes, permanent => 0 and "
+                  "a zeroed buffer; loop unwinding assertion (no hang within the script); descriptor closed iff opened. The retry loop carries "
+                  "no state between iterations, so the result extends to any finite number of transient errors (stated, not checked).",
+        "outside": "scripts longer than K transient errors; getrandom() returning fewer than 32 bytes (documented not to happen for requests "
+                   "<= 256 bytes); read() returning 0 forever; non-Linux TRNG back ends",
+        "stubs": ["getrandom / getentropy / syscall(SYS_getrandom) / open / read / close: renamed by the preprocessor to harness stubs that follow "
+                  "the symbolic script and set the real errno", "memset: byte loop", CUT2_STUBS[1] + " (chain queries)"],
+        "assumptions": AEAD_ASSUME, "relies_on": ["C17 (seeding status)", "C15 (model of instantiate)"],
+    }
+    return jobs, meta
+
+
+# ---- C20 -------------------------------------------------------------------------------
+@prop("C20")
+def c20(tier):
+    jobs = []
+    free_srcs = LIBC + CLEAN + S("tinyjambu-hash.c", "tinyjambu-hmac.c", "tinyjambu-hkdf.c", "tinyjambu-prng.c") + PERM_UF
+    free_nat = CLEAN + S("tinyjambu-hash.c", "tinyjambu-hmac.c", "tinyjambu-hkdf.c", "tinyjambu-prng.c",
+                         "random/tinyjambu-trng-dev-random.c") + D.perm_real(256)
+    for cfg in ("default", "volatile", "memset_s"):
+        extra = []
+        # glibc has no Annex K: rsize_t is mapped to size_t and memset_s is the harness's contract stub
+        defs = {"STUB_MEMSET_S": None, "rsize_t": "size_t"} if cfg == "memset_s" else {}
+        for which in ("hash", "hmac", "hkdf", "prng"):
+            d = dict(defs); d.update({"VARIANT": 1, "WHICH": which})
+            jobs.append(Job("free-%s-%s" % (which, cfg), "c20_erase.c", d, free_srcs, free_nat if cfg == "default" else [],
+                            backend="sat", unwind=120, config=cfg, extra=extra, facet="X_free zeroes the whole state (%s)" % cfg))
+        ns = range(0, 71) if tier != "quick" else list(range(0, 20)) + [31, 32, 33, 55, 56, 64, 70]
+        for n in ns:
+            for off in (range(8) if (tier != "quick" or n in (0, 1, 7, 8, 9, 33)) else (0, 3)):
+                d = dict(defs); d.update({"VARIANT": 2, "N": n, "OFF": off})
+                jobs.append(Job("clean-n%d-off%d-%s" % (n, off, cfg), "c20_erase.c", d, LIBC + CLEAN, CLEAN if cfg == "default" else [],
+                                backend="sat", unwind=n + 40, config=cfg, extra=extra, facet="tinyjambu_clean exact range (%s)" % cfg))
+    jobs.append(Job("free-null", "c20_erase.c", {"VARIANT": 3}, free_srcs, free_nat, backend="sat", unwind=120, facet="free(NULL) no-op"))
+    meta = {
+        "functions": ["tinyjambu_clean", "tinyjambu_hash_free", "tinyjambu_hmac_free", "tinyjambu_hkdf_free", "tinyjambu_prng_free"],
+        "units": ["src/backend/tinyjambu-clean.c", "src/tinyjambu-hash.c", "src/tinyjambu-hmac.c", "src/tinyjambu-hkdf.c", "src/tinyjambu-prng.c"],
+        "bounds": "free: state objects of 56/56/72/96 arbitrary bytes (subsumes every history), all bytes zero afterwards; clean: sizes 0..70 x "
+                  "offsets 0..7 (quick: a cross-section) inside a buffer with 8 guard bytes on each side, exactly the requested range zeroed; three "
+                  "configurations of the primitive: HAVE_EXPLICIT_BZERO (host default), volatile-loop fallback (real loop), HAVE_MEMSET_S",
+        "outside": "survival of the stores under gcc / clang optimisation is decided on clang IR where the E3 facet is listed, otherwise outside; "
+                   "explicit_bzero / memset_s themselves are libc contracts (stubs)",
+        "stubs": ["explicit_bzero, memset_s: zero exactly n bytes (documented contract)", "memcpy/memset byte loops",
+                  "permutation UF (only linked, not reached)"],
+        "assumptions": AEAD_ASSUME, "relies_on": [],
+    }
+    return jobs, meta
+
+
 # ---- replay ----------------------------------------------------------------------------
 def replay(pid, path):
     hdr = {}
